@@ -241,6 +241,24 @@ class SimDevice:
                 [list(c) for c in self.cells]}
 
 
+class _PlainLightObject:
+    """What lifxlan returns for a device it could not classify: an object of
+    class Light - no zone or tile methods - talking to the same device."""
+    _ALLOWED = {'get_label', 'get_group', 'get_location',
+                'get_product_features', 'get_product_name', 'get_color',
+                'set_color', 'get_power', 'set_power', 'label', 'lan', 'kind',
+                'req_with_resp', 'fire_and_forget', 'req_with_ack'}
+
+    def __init__(self, device):
+        object.__setattr__(self, '_device', device)
+
+    def __getattr__(self, name):
+        if name in self._ALLOWED:
+            return getattr(self._device, name)
+        raise AttributeError("'Light' object has no attribute '{}'".format(
+            name))
+
+
 class SimLan:
     """Stands in for lifxlan.LifxLAN. One instance per scenario."""
     current = None
@@ -279,7 +297,18 @@ class SimLan:
             self.discover_fails -= 1
             self.failed_attempts.append(entry)
             raise WorkflowException('simulated: discovery got no answers')
-        return list(self.devices)
+        out = []
+        for device in self.devices:
+            if self.op_faults.get((device.label, 'classify'), 0) > 0:
+                # lifxlan's own scan got no answer to the version query it
+                # classifies a device by, and hands over a plain Light object
+                # (lifxlan.LifxLAN.discover_devices, `except WorkflowException`)
+                self.op_faults[(device.label, 'classify')] -= 1
+                self.failed_attempts.append((device.label, 'classify'))
+                out.append(_PlainLightObject(device))
+            else:
+                out.append(device)
+        return out
 
     def set_color_all_lights(self, color, duration=0, rapid=False):
         probe = SimDevice(self, {'label': '<all>'})
